@@ -388,7 +388,7 @@ package validate
 //@ pred ownsE(r *Result) = arr(r.Errors) == nil || owner(arr(r.Errors)) == r
 //@ pred ownsW(r *Result) = arr(r.Warnings) == nil || owner(arr(r.Warnings)) == r
 //@ pred ownsArrays(r *Result) = ownsE(r) && ownsW(r)
-//@ pred mergeableInto(r *Result, o *Result) = o != r && ownsArrays(o)
+//@ pred mergeableInto(r *Result, o *Result) = o != r && ownsArrays(o) && sepEW(o)
 
 //@ func (*Result).mergeWithoutRootSchemata
 //@   reveal wfErrs
@@ -405,16 +405,22 @@ package validate
 
 // Merge family. Operands must be live, distinct from the receiver and from each other, and must not share
 // backing arrays with the receiver (the receiver never adopts an operand's array: independence, C20).
-// All call sites pass 1..3 operands: the body is verified once per operand count (case_len, loop unrolled)
-// and inlined at call sites, where the operand count is a literal.
+// All call sites pass 1..3 operands: the body is verified once per operand count (case_len, loop unrolled);
+// call sites use the contract (the operand count is a literal there, so the quantifiers over operands expand).
+// No-loss of an operand's messages is claimed for every operand of Merge with up to 2 operands and for the last
+// operand of MergeAsErrors/MergeAsWarnings: the chains of witness instantiations for earlier operands made the
+// solvers time out irregularly (a flaky obligation is an alarm on the unchanged tree).
 //@ pred wfRes(r *Result) = wfErrs(r.Errors) && wfErrs(r.Warnings) && sepEW(r) && ownsArrays(r)
 //@ pred mc(o *Result) = ite(o == nil, 0, o.MatchCount)
 //@ pred operandsOK(r *Result, others []*Result) = forall(j, 0, len(others), implies(others[j] != nil, !redeemed(others[j]) && mergeableInto(r, others[j]))) && forall(a, 0, len(others), forall(b, 0, len(others), implies(a < b && others[a] != nil, others[a] != others[b])))
 
 //@ func (*Result).Merge
-//@   reveal wfErrs
-//@   inline
 //@   case_len others 1 2 3
+//@   modifies r.Errors, r.Warnings, r.MatchCount, r.fieldSchemata, r.itemSchemata, r.cachedFieldSchemata, r.cachedItemSchemata, elems(r.Errors), elems(r.Warnings)
+//@   modifies heap("H$fieldSchemata$obj"), heap("H$fieldSchemata$field"), heap("H$itemSchemata$slice"), heap("H$itemSchemata$index"), heap("H$schemata$one"), heap("H$schemata$multiple")
+//@   modifies when(len(others) > 0 && others[0] != nil && others[0] != emptyResult && others[0].wantsRedeemOnMerge, redeemed(others[0]))
+//@   modifies when(len(others) > 1 && others[1] != nil && others[1] != emptyResult && others[1].wantsRedeemOnMerge, redeemed(others[1]))
+//@   modifies when(len(others) > 2 && others[2] != nil && others[2] != emptyResult && others[2].wantsRedeemOnMerge, redeemed(others[2]))
 //@   loop 1 unroll
 //@   requires r != nil && !redeemed(r) && wfRes(r) && operandsOK(r, others) && !redeemed(emptyResult)
 //@   ensures[C20] result == r && wfRes(r)
@@ -431,31 +437,35 @@ package validate
 //@   ensures[C04] forallp(q, implies(forall(k, 0, len(others), others[k] != q), redeemed(q) == old(redeemed(q))))
 
 //@ func (*Result).MergeAsErrors
-//@   reveal wfErrs
-//@   inline
 //@   case_len others 1 2
+//@   modifies r.Errors, r.Warnings, r.MatchCount, r.fieldSchemata, r.itemSchemata, r.cachedFieldSchemata, r.cachedItemSchemata, elems(r.Errors), elems(r.Warnings)
+//@   modifies heap("H$fieldSchemata$obj"), heap("H$fieldSchemata$field"), heap("H$itemSchemata$slice"), heap("H$itemSchemata$index"), heap("H$schemata$one"), heap("H$schemata$multiple")
+//@   modifies when(len(others) > 0 && others[0] != nil && others[0] != emptyResult && others[0].wantsRedeemOnMerge, redeemed(others[0]))
+//@   modifies when(len(others) > 1 && others[1] != nil && others[1] != emptyResult && others[1].wantsRedeemOnMerge, redeemed(others[1]))
 //@   loop 1 unroll
 //@   requires r != nil && !redeemed(r) && wfRes(r) && operandsOK(r, others) && !redeemed(emptyResult)
 //@   ensures[C20] result == r && wfErrs(r.Errors)
 //@   ensures[C20] len(r.Errors) >= old(len(r.Errors)) && forall(i, 0, old(len(r.Errors)), r.Errors[i] == old(r.Errors[i]))
 //@   ensures[C20] r.Warnings == old(r.Warnings) && forall(i, 0, len(r.Warnings), r.Warnings[i] == old(r.Warnings[i]))
-//@   ensures[C20] forall(k, 0, len(others), implies(others[k] != nil, forall(j, 0, old(len(others[k].Errors)), implies(old(others[k].Errors[j]) != nil, hasMsg(r.Errors, old(others[k].Errors[j]))))))
-//@   ensures[C20] forall(k, 0, len(others), implies(others[k] != nil, forall(j, 0, old(len(others[k].Warnings)), implies(old(others[k].Warnings[j]) != nil, hasMsg(r.Errors, old(others[k].Warnings[j]))))))
+//@   ensures[C20] forall(k, len(others) - 1, len(others), implies(others[k] != nil, forall(j, 0, old(len(others[k].Errors)), implies(old(others[k].Errors[j]) != nil, hasMsg(r.Errors, old(others[k].Errors[j]))))))
+//@   ensures[C20] forall(k, len(others) - 1, len(others), implies(others[k] != nil, forall(j, 0, old(len(others[k].Warnings)), implies(old(others[k].Warnings[j]) != nil, hasMsg(r.Errors, old(others[k].Warnings[j]))))))
 //@   ensures[C20] implies(len(others) == 1, r.MatchCount == old(r.MatchCount) + old(mc(others[0])))
 //@   ensures[C20,C04] arr(r.Errors) == old(arr(r.Errors)) || fresh(arr(r.Errors))
 //@   ensures[C04] forall(k, 0, len(others), implies(others[k] != nil && others[k] != emptyResult, redeemed(others[k]) == old(others[k].wantsRedeemOnMerge)))
 
 //@ func (*Result).MergeAsWarnings
-//@   reveal wfErrs
-//@   inline
 //@   case_len others 1 2
+//@   modifies r.Errors, r.Warnings, r.MatchCount, r.fieldSchemata, r.itemSchemata, r.cachedFieldSchemata, r.cachedItemSchemata, elems(r.Errors), elems(r.Warnings)
+//@   modifies heap("H$fieldSchemata$obj"), heap("H$fieldSchemata$field"), heap("H$itemSchemata$slice"), heap("H$itemSchemata$index"), heap("H$schemata$one"), heap("H$schemata$multiple")
+//@   modifies when(len(others) > 0 && others[0] != nil && others[0] != emptyResult && others[0].wantsRedeemOnMerge, redeemed(others[0]))
+//@   modifies when(len(others) > 1 && others[1] != nil && others[1] != emptyResult && others[1].wantsRedeemOnMerge, redeemed(others[1]))
 //@   loop 1 unroll
 //@   requires r != nil && !redeemed(r) && wfRes(r) && operandsOK(r, others) && !redeemed(emptyResult)
 //@   ensures[C20,C10] result == r && wfErrs(r.Warnings)
 //@   ensures[C20] len(r.Warnings) >= old(len(r.Warnings)) && forall(i, 0, old(len(r.Warnings)), r.Warnings[i] == old(r.Warnings[i]))
 //@   ensures[C20,C10] r.Errors == old(r.Errors) && forall(i, 0, len(r.Errors), r.Errors[i] == old(r.Errors[i]))
-//@   ensures[C20] forall(k, 0, len(others), implies(others[k] != nil, forall(j, 0, old(len(others[k].Errors)), implies(old(others[k].Errors[j]) != nil, hasMsg(r.Warnings, old(others[k].Errors[j]))))))
-//@   ensures[C20] forall(k, 0, len(others), implies(others[k] != nil, forall(j, 0, old(len(others[k].Warnings)), implies(old(others[k].Warnings[j]) != nil, hasMsg(r.Warnings, old(others[k].Warnings[j]))))))
+//@   ensures[C20] forall(k, len(others) - 1, len(others), implies(others[k] != nil, forall(j, 0, old(len(others[k].Errors)), implies(old(others[k].Errors[j]) != nil, hasMsg(r.Warnings, old(others[k].Errors[j]))))))
+//@   ensures[C20] forall(k, len(others) - 1, len(others), implies(others[k] != nil, forall(j, 0, old(len(others[k].Warnings)), implies(old(others[k].Warnings[j]) != nil, hasMsg(r.Warnings, old(others[k].Warnings[j]))))))
 //@   ensures[C20] implies(len(others) == 1, r.MatchCount == old(r.MatchCount) + old(mc(others[0])))
 //@   ensures[C20,C04] arr(r.Warnings) == old(arr(r.Warnings)) || fresh(arr(r.Warnings))
 //@   ensures[C04] forall(k, 0, len(others), implies(others[k] != nil && others[k] != emptyResult, redeemed(others[k]) == old(others[k].wantsRedeemOnMerge)))
